@@ -10,6 +10,14 @@ CLAIMED = {
    text="Deductive: the whole of pydoctor/mro.py is under contract and proved for all inputs: Dependency.head/tail, DependencyList.__init__ (fresh pairwise-distinct deques), __contains__, heads, tails, exhausted, remove (pointwise over the abstract view), _merge (result = the C3 merge of its argument lists, ValueError exactly when C3 has no solution; both loops with invariants; remaining-work invariant pre(result, c3_merge(view)) = c3_merge(lists)) and mro (result = the C3 linearisation over a pure base function, recursion by its own contract).",
    note="Assumed: elements are truthy and getbases is pure; the C3 definition (axioms c3_def, drop_def, view_def) is the specification, validated against CPython's type().__mro__ on every hierarchy of <= 5 classes each run (bounded, an assumption check). Not yet under contract: model.Class._init_mro/compute_mro (cycle detection, reporting), Class.find, docsources, get_docstring, templatewriter.util/pages lookups - these are exercised only by the bounded native harness.",
    ref='6 C05'),
+ 'C11': dict(
+   text="Deductive, for the URL scheme, link construction and the page set: Documentable.url / page_object (a page-owning object is its page, a member is '#quote(name)' on its parent's page, index.html for a single root), taglink (a link is created exactly for visible targets, its href is the target's url up to the same-page shortening), TemplateWriter._writeDocsFor (recursive: exactly one file per visible page-owning object of the subtree, named by its url, nothing below a hidden object), the member anchors emitted by FunctionChild/AttributeChild, and two string lemmas (fragment of a member url = quote(anchor); same-page shortening resolves on that page).",
+   note="Assumed: templates attach the renderer results as name= attributes; urllib.parse.quote never produces '#'; the object model is a tree (C02). hrefs built outside taglink (letter links, sidebar templates, search) and the anchor sets of the written files are decided by the bounded native scan of real output only. Known finding KF-C11-displaced-duplicates.",
+   ref='6 C11'),
+ 'C12': dict(
+   text="Deductive: taglink creates a hyperlink only to a visible object (after the fix) - every caller inherits this modularly; the listing functions CommonPage.children/methods, PackagePage.children/methods, ObjContent._children, Module.submodules return only visible objects, all taken from the container's contents (sorted() modelled as a permutation, filtered generators by witness functions); assembleList drops names of hidden objects; _writeDocsFor writes no page for or below a hidden object; css_class carries ' private' exactly for PRIVATE objects and the sidebar item class starts with 'private' exactly for non-public ones.",
+   note="Assumed: isVisible/privacyClass as pure queries (verified against the documented rule under C13); stan constructors opaque; templates (HTML) not covered. Not under contract: table.ChildTable.rows, util.unmasked_attrs (set comprehension with two generators), summary.* index pages, search, TableRow/FunctionChild.class_ - decided by the bounded native scan of real output (8 privacy rule lists + hidden root + themes). Interpretation stated in DESIGN: a hidden base of a visible class shown as a plain name node is source text about the visible class.",
+   ref='6 C12'),
  'C13': dict(
    text="Deductive: System.privacyClass (both precedence loops, cache), Documentable.privacyClass and its override Module.privacyClass (behavioural subtyping), isVisible (recursive, against the documented 'hidden containers hide their members'), isPrivate and qnmatch.translate (token-by-token against the documented glob grammar, both loops with invariants and variants) are verified for all objects, rule lists and patterns; the privacy postcondition is the documented precedence taken from the property statement (exact rule over pattern rules, last rule wins, underscore default).",
    note="Assumed: Python's re gives each emitted regex fragment its documented meaning and qnmatch() = re match of translate() (bounded-validated each run against an independent matcher over all patterns<=3 x names<=3); R5 of C02 (equal qualified names have equal short names) on cache hits; str.replace facts; parse_privacy_tuple is checked natively only (bounded). Known finding KF-C13-main-module (module named __main__) is excluded from Module.privacyClass's obligations explicitly and reported as KNOWN-FINDING.",
